@@ -487,7 +487,7 @@ _PURE_METHODS = {"sum", "dot", "reshape", "astype", "conj", "conjugate", "copy",
                  "tolist", "item", "nonzero", "squeeze", "std", "var", "cumsum", "prod", "argmax", "argmin", "round", "clip", "take", "repeat",
                  "diagonal", "trace", "swapaxes", "items", "values", "keys", "get", "index", "count", "format", "join", "split", "startswith",
                  "endswith", "lower", "upper", "strip", "difference", "union", "intersection", "symmetric_difference", "isdisjoint", "issuperset",
-                 "issubset", "find", "warn"}
+                 "issubset", "find", "warn", "debug", "info", "warning"}
 _REFLECTIVE = {"exec", "eval", "locals", "globals", "vars", "compile", "__import__"}
 _INDEX_MAKERS = ("np.s_", "np.index_exp", "numpy.s_", "numpy.index_exp")
 
@@ -1066,6 +1066,8 @@ class PathEval(AutoEvaluator):
             if len(got) == 2:
                 a, b = (self.ev(got[p_]) for p_ in _SOLVE_PARAMS[_SOLVES[name]])
                 self._record(name, node)
+                if any((k.arg or "").startswith("overwrite_") for k in node.keywords):
+                    self._note_escape(name, node)
                 if is_unknown(a) or is_unknown(b) or isinstance(a, (tuple, DictValue)) or isinstance(b, (tuple, DictValue)):
                     return a if is_unknown(a) else (b if is_unknown(b) else Unknown("solve of tuples"))
                 return F.fn(_SOLVES[name], need(a), need(b))
@@ -1217,6 +1219,8 @@ class PathEval(AutoEvaluator):
             return
         pure = followed and name is not None and name not in _INPLACE and (name.startswith(_PURE_PREFIX) or name in _PURE_BUILTINS or name in _NAMESPACES
                                                                            or name.endswith(("Error", "Warning", "Exception")))
+        if pure and any((k.arg or "").startswith("overwrite_") and not (isinstance(k.value, ast.Constant) and k.value.value in (False, None, 0)) for k in node.keywords):
+            pure = False          # scipy's overwrite_a / overwrite_b: the library may write into its arguments
         vals = []
         if not pure and isinstance(node.func, ast.Attribute) and followed and not (name or "").startswith(_PURE_PREFIX):
             if node.func.attr in _PURE_METHODS:
